@@ -48,7 +48,8 @@ def run_supervised(sup, argv, cwd, prefix, rules=None, seed=None, hold_permille=
         rpath = os.path.join(tdir, tag + ".rules")
         with open(rpath, "wb") as f:
             for (act, a, b, sysn, nth, path) in rules:
-                f.write(("%s %d %d %s %d " % (act, a, b, sysn, nth)).encode() + os.fsencode(path) + b"\n")
+                pb = os.fsencode(path).replace(b"\\", b"\\\\").replace(b"\n", b"\\n")
+                f.write(("%s %d %d %s %d " % (act, a, b, sysn, nth)).encode() + pb + b"\n")
         cmd += ["-r", rpath]
     if seed is not None and hold_permille:
         cmd += ["-S", str(seed), "-P", str(hold_permille), "-M", str(hold_maxms)]
@@ -71,6 +72,9 @@ def run_supervised(sup, argv, cwd, prefix, rules=None, seed=None, hold_permille=
         code, so, se = r.returncode, r.stdout, r.stderr
     except subprocess.TimeoutExpired as ex:
         code, so, se = 124, ex.stdout or b"", ex.stderr or b""
+    if code == 99 and se.startswith(b"sup:"):
+        # the supervisor rejected its own input: a harness problem, never a verdict about xcp
+        raise core.BuildError("supervisor error: %s (rules %r)" % (se.decode("utf-8", "replace").strip(), rules))
     trace = []
     meta = {}
     try:
